@@ -767,6 +767,9 @@ func (self Node) Gets(keys []PathNode, opts *Options) (err error) {
 		return errValue(meta.ErrRead, "", it.Err)
 	}
 	need := len(keys)
+	if need > 1 {
+		return self.getsMany(keys, &it, opts)
+	}
 	for count := 0; it.HasNext() && count < need; {
 		for j, id := range keys {
 			if id.Path.Type() == PathStrKey {
@@ -807,6 +810,55 @@ func (self Node) Gets(keys []PathNode, opts *Options) (err error) {
 	}
 	// it.Recycle()
 	return
+}
+
+// getsMany is Gets() for more than one key: every map entry is read exactly once
+// and compared with each of the requested keys.
+func (self Node) getsMany(keys []PathNode, it *mapIterator, opts *Options) error {
+	for _, id := range keys {
+		switch id.Path.Type() {
+		case PathStrKey:
+			if it.kt != thrift.STRING {
+				return errValue(meta.ErrUnsupportedType, "key type is not string", nil)
+			}
+		case PathIntKey:
+			if !it.kt.IsInt() {
+				return errValue(meta.ErrUnsupportedType, "key type is not int", nil)
+			}
+		}
+	}
+	need := len(keys)
+	for count := 0; it.HasNext() && count < need; {
+		_, kb, v, e := it.NextBin(opts.UseNativeSkip)
+		if it.Err != nil {
+			return errValue(meta.ErrRead, "", it.Err)
+		}
+		for j, id := range keys {
+			var hit bool
+			switch id.Path.Type() {
+			case PathStrKey:
+				hit = len(kb) >= 4 && id.Path.str() == string(kb[4:])
+			case PathIntKey:
+				switch it.kt {
+				case thrift.I08:
+					hit = id.Path.int() == int(thrift.BinaryEncoding{}.DecodeByte(kb))
+				case thrift.I16:
+					hit = id.Path.int() == int(thrift.BinaryEncoding{}.DecodeInt16(kb))
+				case thrift.I32:
+					hit = id.Path.int() == int(thrift.BinaryEncoding{}.DecodeInt32(kb))
+				case thrift.I64:
+					hit = id.Path.int() == int(thrift.BinaryEncoding{}.DecodeInt64(kb))
+				}
+			default:
+				hit = bytes.Equal(id.Path.bin(), kb)
+			}
+			if hit {
+				keys[j].Node = self.slice(v, e, self.et)
+				count += 1
+			}
+		}
+	}
+	return nil
 }
 
 // GetMany searches transversely and returns all the sub nodes along with the given pathes.
